@@ -39,7 +39,7 @@ def ptypeCh : PType → String
 
 /-- actor token: a<i>, `blk` (a blocked module account), anything else = not an address -/
 def actorOf (s : String) : Option Addr :=
-  if s = "blk" then some blockedAddr else if s.startsWith "a" then some (idx! s) else none
+  if s = "blk" then some blockedAddr else if s.startsWith "a" || s.startsWith "A" then some (idx! s) else none
 
 def addrOf (s : String) : Addr := (actorOf s).getD 999999
 
@@ -57,7 +57,8 @@ def keyOfName (name : String) : Bytes :=
 
 def memoOf (s : String) : Memo :=
   if s = "-" then .none else if s = "nj" then .notJson else if s = "ne" then .noEibc else if s = "eb" then .eibcBad
-  else if s.startsWith "e:" then .eibc (parseInt (s.drop 2).toString) else .none
+  else if s.startsWith "e:" then .eibc (parseInt (s.drop 2).toString)
+  else if s.startsWith "fw:" then .forward (idx! (s.drop 3).toString) else .none
 
 def drefOf (s : String) : DRef :=
   if s = "f" then .foreign else .back (idx! s)
@@ -90,6 +91,7 @@ def parseOp (f : List String) : Option Op :=
     some (.recv (idx! c) (kvN f "seq") (kvN f "ph")
       { dref := drefOf (kv f "den"), amount := kvI f "amt", target := actorOf (kv f "to"), memo := memoOf (kv f "memo") })
   | "send" :: a :: c :: _ => some (.send (addrOf a) (idx! c) (idx! (kv f "den")) (kvI f "amt"))
+  | "sendblk" :: a :: c :: _ => some (.sendBlk (addrOf a) (idx! c) (idx! (kv f "den")) (kvI f "amt"))
   | "ack" :: c :: _ => some (.ack (idx! c) (kvN f "seq") (kvN f "ph") (kv f "res" = "err"))
   | "timeout" :: c :: _ => some (.timeout (idx! c) (kvN f "seq") (kvN f "ph"))
   | "fin" :: a :: r :: _ =>
@@ -114,6 +116,7 @@ def parseOp (f : List String) : Option Op :=
   | "fork" :: r :: _ => some (.fork (ridOf r) (kvN f "h"))
   | ["chanclose", c] => some (.chanClose (idx! c))
   | ["chanopen", c] => some (.chanOpen (idx! c))
+  | "timeoutclose" :: c :: _ => some (.timeoutOnClose (idx! c) (kvN f "seq"))
   | ["epoch"] => some .epoch
   | ["block"] => some .block
   | _ => none
@@ -151,6 +154,8 @@ def perrName : Option PErr → String
   | some .ackClosed => "ackClosed"
   | some .ackExists => "ackExists"
   | some (.refund bal amt d) => s!"refund:{bal}:{amt}:d{d}"
+  | some (.fwdMove bal amt d) => s!"fwdMove:{bal}:{amt}:d{d}"
+  | some (.fwdBurn bal amt d) => s!"fwdBurn:{bal}:{amt}:d{d}"
 
 def renderPkt (s : St) (p : Packet) : String :=
   s!"{pktName s p}/{stCh p.status}/a{p.target}/{optA p.orig}/{p.amount}/d{p.denom}/{b2s p.unescrow}/{b2s p.ackErr}/{perrName p.perr}"
@@ -198,7 +203,8 @@ def render (s : St) (nActors : Nat) (res : String) : String :=
   let ord := dash (s.orders.map (renderOrd s)) ";"
   let lp := dash (s.lps.map (renderLp s)) ";"
   let gr := dash ((sortBy (fun (a b : Grant) => ltNN (a.granter, a.grantee) (b.granter, b.grantee)) s.grants).map (renderGrant s)) ";"
-  let accts := (List.range (nActors + 1)).map (fun a => (s!"a{a}", a)) ++ (List.range 4).map (fun c => (s!"e{c}", escrowAcct c))
+  let accts := (List.range (nActors + 1)).map (fun a => (s!"a{a}", a)) ++ (List.range 4).map (fun c => (s!"e{c}", escrowAcct c)) ++
+    (List.range 4).map (fun c => (s!"a{pfmAddr c}", pfmAddr c))
   let bal := joinWith "," (accts.map fun x => s!"{x.1}:{renderBal s x.2}")
   let rc := dash ((sortBy ltNN s.receipts).map fun x => s!"c{x.1}.{x.2}") ","
   let cm := dash ((sortBy ltNN s.commits).map fun x => s!"c{x.1}.{x.2}") ","
@@ -221,6 +227,7 @@ def outName : Out → String
   | .err e => errName e
   | .recv .replay => "replay"
   | .recv .async => "async"
+  | .recv .forwarded => "async"   -- the implementation shows a nil acknowledgement in both cases
   | .recv .ackOk => "ackok"
   | .recv .ackErr => "ackerr"
   | .recv .closed => "chanClosed"
@@ -244,6 +251,8 @@ def dstep (d : DState) (f : List String) : DState × String :=
       -- a failed MsgTransfer is one class (ibc-go's own checks are not modelled one by one)
       let res := match op, r.2 with
         | .send .., .err _ => "err"
+        | .sendBlk .., .err _ => "err"
+        | .timeoutOnClose c q, .ok => if d.st.commits.contains (c, q) then "ok" else "replay"
         | _, o => outName o
       ({ d with st := r.1 }, render r.1 d.nActors res)
 
